@@ -696,7 +696,7 @@ func c08BlockedCallback(w *fw.Worker, i int, r *fw.Rand) {
 		w.Violation(i, "config-failed", err.Error(), desc)
 		return
 	}
-	e.CBGate = make(chan struct{})
+	e.SetCBGate(make(chan struct{}))
 	ctx := e.S.Ctx
 	n := 200
 	var last *conc.Layer
